@@ -683,6 +683,16 @@ func cmdCheck(args []string) int {
 	assumptions := map[string]bool{}
 	unmodelled := map[string]bool{}
 	var fucs []string
+	for _, n := range p.genNotes {
+		assumptions[n] = true
+	}
+	if len(p.generated) > 0 {
+		nl := 0
+		for _, g := range p.generated {
+			nl += strings.Count(g, "\n")
+		}
+		assumptions[fmt.Sprintf("%d contract clauses were generated on this run from the struct tags of the types named by `generate` directives (the specification is the tag set, not the marshaller)", nl)] = true
+	}
 	for _, vc := range vcs {
 		fucs = append(fucs, vc.shortName())
 		for k := range vc.enc.usedTrusted {
@@ -692,6 +702,9 @@ func cmdCheck(args []string) int {
 			assumptions[k] = true
 		}
 		for k := range vc.unmodelled {
+			if *verbose {
+				fmt.Printf("  unmodelled call: %s -> %s\n", vc.shortName(), k)
+			}
 			unmodelled[vc.shortName()+" -> "+k] = true
 		}
 		for _, w := range vc.warnings {
